@@ -42,6 +42,7 @@ type Engine struct {
 	knownNames  map[string]bool // obligations recorded as known findings for curProp
 	noRetry     bool
 	curProp     string // property being checked (clause-level @Cxx filters)
+	ghostMemo   map[*ssa.Function]map[string]bool
 	loopSigs    map[string][]string // loop header texts recorded on the unchanged tree (baseline/loops.json)
 	curLoopSigs map[string][]string // ... of the current source, for the functions verified in this run
 	frozenIDs   map[string]bool // printed literal of frozen global object ids
